@@ -147,6 +147,42 @@ def gen_rnd_cases(ctx):
     return cases, meta
 
 
+def meta_from_line(line):
+    """reconstruct the description of a differential case from its text (used by --replay)"""
+    t = line.split()
+    if t[:1] == ["il"] and len(t) == 4:
+        d = unhex(t[3])
+        return {"site": int(t[1]), "variant": t[2], "data": d, "kind": "onehot" if sum(1 for x in d if x) == 1 and t[2] in ("i8", "di8") else "replay"}
+    if t[:1] == ["rnd"] and len(t) == 3:
+        return {"variant": t[1], "data": unhex(t[2]), "kind": "replay"}
+    if t[:1] == ["dc"]:
+        return {"variant": "dc", "data": [], "kind": "table"}
+    return None
+
+
+def ometa_from_line(line):
+    t = line.split()
+    if t[:1] == ["rt"] and len(t) == 4:
+        return ("rt", int(t[1]), t[2], unhex(t[3]))
+    if t[:1] == ["rnd2"] and len(t) == 3:
+        return ("rnd2", t[1], unhex(t[2]))
+    if t[:1] == ["rndx"] and len(t) == 4:
+        return ("rndx", t[1], int(t[2]), unhex(t[3]))
+    return None
+
+
+def replay_lines(ctx):
+    """the case line(s) recorded in a replay file written by an earlier run, or None"""
+    if not ctx.replay_in:
+        return None
+    import json
+    d = json.load(open(ctx.replay_in))
+    rep = d.get("replay", {})
+    lines = [rep[k] for k in ("case", "case_b") if isinstance(rep.get(k), str)]
+    ctx.log(f"replaying {len(lines)} recorded case(s) from {ctx.replay_in}")
+    return lines
+
+
 # ------------------------------------------------------------------ run
 def run(ctx):
     sites = get_sites(ctx)
@@ -157,6 +193,11 @@ def run(ctx):
     rnd_cases, rnd_meta = gen_rnd_cases(ctx)
     cases = ["sites"] + il_cases + rnd_cases
     meta = [{"kind": "sites"}] + il_meta + rnd_meta
+    rl = replay_lines(ctx)
+    if rl is not None:   # --replay: exactly the recorded input, on model and implementation
+        keep = [(l, meta_from_line(l)) for l in rl if meta_from_line(l)]
+        cases = ["sites"] + [l for l, _ in keep]
+        meta = [{"kind": "sites"}] + [m for _, m in keep]
     text = "\n".join(cases) + "\n"
     (ctx.workdir / "cases.txt").write_text(text)
     ctx.coverage["interleaver_sites"] = [{"site": n, "args": [f1, f2, kk]} for n, f1, f2, kk in sites]
@@ -196,14 +237,18 @@ def run(ctx):
     site_names = {}
     for (f1, f2, kk), users in seen.items():
         site_names[users[0][0]] = ", ".join(n for _, n in users)
-    ctx.sample({"case": cases[1][:80] + "...", "impl": a[1][:80] + "..." if len(a) > 1 else None})
+    if len(cases) > 1:
+        ctx.sample({"case": cases[1][:80] + "...", "impl": a[1][:80] + "..." if len(a) > 1 else None})
 
     # (ii) property oracle on the C++ outputs
     reported = set()
+    cur = {"case": None}
 
     def viol(key, text, replay):
         if key not in reported:
             reported.add(key)
+            if cur["case"]:
+                replay = dict(replay, case=cur["case"])
             ctx.violation(key, text, replay)
 
     # every site must be the specification's interleaver
@@ -215,6 +260,9 @@ def run(ctx):
         if i >= len(a):
             break
         out = a[i]
+        cur["case"] = c
+        if rl is not None:
+            ctx.log(f"replay: {c[:90]}... -> implementation {out[:90]}...")
         if m.get("kind") == "sites" or m.get("variant") == "dc":
             if m.get("variant") == "dc":
                 got = [s8(b) for b in unhex(out)]
@@ -311,6 +359,12 @@ def run(ctx):
                 ocases.append(f"rndx {tx} {amp} {hx(d)}"); ometa.append(("rndx", tx, amp, d))
     for d in ([0x80] * 368, [0x7F] * 368, [0x81] * 368):
         ocases.append(f"rnd2 soft {hx(d)}"); ometa.append(("rnd2", "soft", d))
+    if rl is not None:
+        keep = [(l, ometa_from_line(l)) for l in rl if ometa_from_line(l)]
+        ocases = [l for l, _ in keep]; ometa = [m for _, m in keep]
+    cur["case"] = None
+    if not ocases:
+        return
     otext = "\n".join(ocases) + "\n"
     (ctx.workdir / "oracle_cases.txt").write_text(otext)
     rc, oout = ctx.run_exe(exe, input_text=otext)
@@ -319,6 +373,9 @@ def run(ctx):
         ctx.tie_broken("c10-harness-oracle-run", f"harness exited {rc}, {len(o)} lines for {len(ocases)} cases")
     for c, m, out in zip(ocases, ometa, o):
         ctx.evaluations += 1
+        cur["case"] = c
+        if rl is not None:
+            ctx.log(f"replay: {c[:90]}... -> implementation {out[:90]}...")
         if m[0] == "rt":
             _, k, v, d = m
             _, f1, f2, kk = sites[k]
